@@ -17,7 +17,8 @@ Definition pr_enc (e : enc) : Prop := enc_base e = BCo \/ enc_base e = BAdm.
 (* what is assumed of the grounded computation on the component *)
 Definition gr_start (F : af) : Prop :=
   co F (grounded (view_of_af F)) /\ NoDup (grounded (view_of_af F)).
-(* the bound on the number of SAT calls in one component *)
+(* the bound of C18 for one component: every run makes FEWER than [pr_bound] SAT calls (at most
+   |base| + |PR|), and [pr_bound] units of fuel are enough *)
 Definition pr_bound (e : enc) (F : af) : nat :=
   length (all_base (enc_base e) F) + length (all_exts PR F) + 1.
 
@@ -123,18 +124,18 @@ Variable thr : nat.
 Hypothesis Hthr : 1 <= thr.
 Hypothesis Hvalid : valid_oracle oracle.
 
-(* the shape of every result: completed runs satisfy [Q], no run panics, every run stays within
-   [B] SAT calls, and fuel runs out only when fewer than [B] units were given *)
+(* the shape of every result: completed runs satisfy [Q], no run panics, every run makes fewer
+   than [B] SAT calls, and fuel runs out only when fewer than [B] units were given *)
 Definition outcome_ok {A} (r : res A) (c0 B fuel : nat) (Q : A -> Prop) : Prop :=
   match r with
-  | Done a s' => Q a /\ calls s' <= c0 + B
-  | Abort s' => calls s' <= c0 + B
+  | Done a s' => Q a /\ calls s' + 1 <= c0 + B
+  | Abort s' => calls s' + 1 <= c0 + B
   | Panic _ => False
-  | OutOfFuel s' => calls s' <= c0 + B /\ fuel < B
+  | OutOfFuel s' => calls s' + 1 <= c0 + B /\ fuel < B
   end.
 
 Lemma wp_outcome A (m : M A) c0 B fuel (Q : A -> Prop) s :
-  wp (QAb c0 B) QPb (QFb c0 B (fuel < B)) m (fun a s' => Q a /\ calls s' <= c0 + B) s ->
+  wp (QAb c0 B) QPb (QFb c0 B (fuel < B)) m (fun a s' => Q a /\ calls s' + 1 <= c0 + B) s ->
   outcome_ok (m s) c0 B fuel Q.
 Proof. unfold wp, outcome_ok, QAb, QPb, QFb. destruct (m s); auto. Qed.
 
@@ -163,7 +164,7 @@ Notation Bd := (pr_bound e F).
 
 Lemma pr_max_wp A fuel (FS : Prop) (cont : list nat -> M A) (Q : A -> Prog.st -> Prop) s :
   cls s = [] -> sess_bounded s -> (Bd <= fuel \/ FS) ->
-  (forall l s', pr F l -> NoDup l -> calls s' <= calls s + Bd ->
+  (forall l s', pr F l -> NoDup l -> calls s' + 1 <= calls s + Bd ->
      wp (QAb (calls s) Bd) QPb (QFb (calls s) Bd FS) (cont l) Q s') ->
   wp (QAb (calls s) Bd) QPb (QFb (calls s) Bd FS)
      (encode_m thr e false F ;;; k <- new_cc_computer e F FPref ;;
@@ -191,7 +192,7 @@ Lemma pr_ds_wp fuel (FS : Prop) la shortcut s :
   cls s = [] -> sess_bounded s -> (Bd <= fuel \/ FS) ->
   wp (QAb (calls s) Bd) QPb (QFb (calls s) Bd FS)
      (encode_m thr e false F ;;; k <- new_cc_computer e F FPref ;; pr_ds_loop oracle fuel F la shortcut k)
-     (fun r s' => ds_post e F la shortcut r /\ calls s' <= calls s + Bd) s.
+     (fun r s' => ds_post e F la shortcut r /\ calls s' + 1 <= calls s + Bd) s.
 Proof.
   intros Hc Hsb Hfuel. apply (setup_spec thr Hthr e F n HF Hpe); [exact Hc|exact Hsb|].
   intros C selv s2 HC Hc2 Hcalls2 Hsb2 (Hfresh & Hselpos & Hargs).
@@ -283,7 +284,7 @@ Lemma outcome_done A (r : res A) c0 B fuel Q :
   outcome_ok r c0 B fuel Q -> match r with Done a _ => Q a | _ => True end.
 Proof. destruct r; cbn; tauto. Qed.
 Lemma outcome_calls A (r : res A) c0 B fuel Q :
-  outcome_ok r c0 B fuel Q -> calls (final_st r) <= c0 + B.
+  outcome_ok r c0 B fuel Q -> calls (final_st r) + 1 <= c0 + B.
 Proof. destruct r; cbn; tauto. Qed.
 Lemma outcome_fuel A (r : res A) c0 B fuel Q :
   outcome_ok r c0 B fuel Q -> B <= fuel -> match r with OutOfFuel _ => False | _ => True end.
@@ -327,7 +328,7 @@ Qed.
 (* T3 (C18 for PR): SAT calls per component, whatever the kind of result, and sufficient fuel *)
 Corollary pr_max_in_cc_calls : forall fuel e c n s,
   compact_af (c_af c) n -> pr_enc e -> gr_start (c_af c) ->
-  calls (final_st (pr_max_in_cc oracle thr fuel e c s)) <= calls s + pr_bound e (c_af c).
+  calls (final_st (pr_max_in_cc oracle thr fuel e c s)) + 1 <= calls s + pr_bound e (c_af c).
 Proof. intros fuel e c n s HF Hpe Hgr. exact (outcome_calls _ _ _ _ _ _ (pr_max_in_cc_full fuel e c n s HF Hpe Hgr)). Qed.
 
 Corollary pr_max_in_cc_fuel : forall fuel e c n s,
@@ -341,7 +342,7 @@ Qed.
 
 Corollary pr_ds_in_cc_calls : forall fuel e c n al la shortcut s,
   compact_af (c_af c) n -> pr_enc e -> gr_start (c_af c) -> locals c al = Some la ->
-  calls (final_st (pr_ds_in_cc oracle thr fuel e c al shortcut s)) <= calls s + pr_bound e (c_af c).
+  calls (final_st (pr_ds_in_cc oracle thr fuel e c al shortcut s)) + 1 <= calls s + pr_bound e (c_af c).
 Proof.
   intros fuel e c n al la shortcut s HF Hpe Hgr Hloc.
   exact (outcome_calls _ _ _ _ _ _ (pr_ds_in_cc_full fuel e c n al la shortcut s HF Hpe Hgr Hloc)).
